@@ -33,7 +33,9 @@ type stateSpec struct {
 }
 
 var staleNames = []string{"", "feeperbyte-raised-a-little", "feeperbyte-raised-a-lot", "attribute-fee-raised", "sender-blocked",
-	"balance-dropped", "valid-until-passed", "conflict-landed-on-chain"}
+	"balance-dropped", "valid-until-passed", "conflict-landed-on-chain",
+	// controls: the pooled transaction must SURVIVE the tip block (8, 9) / is one unit short (10)
+	"other-attribute-fee-raised", "feeperbyte-raised-covered", "feeperbyte-raised-covered-minus-1"}
 
 func (s stateSpec) String() string {
 	b := 0
@@ -394,6 +396,17 @@ func (st *state) buildStale(p *chainT, nn func() uint32, vub uint32) {
 		st.blocked = append(st.blocked, accS.h)
 	case 6:
 		o.vub = p.bc.BlockHeight() + 1
+	case 8:
+		st.conflFee = 50000000
+		change = append(change, mkCommitteeTx(cv, policy, "setAttributeFee", nn(), vub, int64(transaction.ConflictsT), st.conflFee))
+	case 9, 10:
+		st.fpb = 2 * baseFeePerByte
+		change = append(change, mkCommitteeTx(cv, policy, "setFeePerByte", nn(), vub, st.fpb))
+		// pays for its size at the raised FeePerByte already now (exactly / one unit short)
+		o.extraNet = int64(len(mkTx(accS, accX.h, 55, o).Bytes())) * (st.fpb - baseFeePerByte)
+		if st.spec.stale == 10 {
+			o.extraNet--
+		}
 	}
 	st.stale = mkTx(accS, accX.h, 55, o)
 	switch st.spec.stale {
